@@ -411,6 +411,10 @@ def _worker(ops):
     return run_recipe(ops)
 
 
+def _connect_worker(case):
+    return Connect().observe1(case)
+
+
 # ------------------------------------------------------------------------------------------------
 # Coq printers
 # ------------------------------------------------------------------------------------------------
@@ -678,9 +682,9 @@ def product_cases(rng, tier):
                         for pr in base:
                             out.append((stype, k, pl, ks, declared, pr))
     if tier == 'quick':
-        out = rng.sample(out, 500)
+        out = rng.sample(out, 400)
     else:
-        out = rng.sample(out, 9000)
+        out = rng.sample(out, 6000)
     cases = []
     for (stype, k, pl, ks, declared, pr) in out:
         w = World(rng)
@@ -731,7 +735,7 @@ class Slices(Stream):
         return out + [w[1] for w in WITNESSES]
 
     def gen(self, rng, tier):
-        n = 450 if tier == 'quick' else 12000
+        n = 380 if tier == 'quick' else 7000
         cases = product_cases(rng, tier)
         for i in range(n):
             cases.append(random_case(rng, 1 if i % 25 else 0))
@@ -883,10 +887,28 @@ class Connect(Stream):
     rule = ('exhaustive: 15 service types x 9 interface types x {constructor interfaces=[..], connect_interface()}; '
             'observed: is the connection refused at once (TopologyException); distinct by case')
 
+    def __init__(self):
+        self.cache = {}
+
     def gen(self, rng, tier):
-        return [[st, it, via] for st in STYPES for it in ITYPES for via in ('ctor', 'connect')]
+        cases = [[st, it, via] for st in STYPES for it in ITYPES for via in ('ctor', 'connect')]
+        try:
+            import multiprocessing as mp
+            with mp.get_context('fork').Pool(max(1, min(NPROC, 12))) as pool:
+                res = pool.map(_connect_worker, cases, chunksize=8)
+            for c, o in zip(cases, res):
+                self.cache[json.dumps(c)] = o
+        except Exception as e:
+            log('C10: parallel observation failed (%r), falling back to sequential' % e)
+        return cases
 
     def observe(self, case):
+        k = json.dumps(case)
+        if k in self.cache:
+            return self.cache.pop(k)
+        return self.observe1(case)
+
+    def observe1(self, case):
         st, it, via = case
         w = World(__import__('random').Random(0))
         if it in ('SharedPort', 'DedicatedPort', 'FacilityPort', 'SubInterface'):
@@ -962,7 +984,7 @@ def replay_witness(ops, reason):
 
 def replay_connect_witness():
     st = Connect()
-    o = st.observe(['L2PTP', 'SharedPort', 'connect'])
+    o = st.observe1(['L2PTP', 'SharedPort', 'connect'])
     return (o['last'] == 'ok' and o['prep_ok']), {'case': ['L2PTP', 'SharedPort', 'connect_interface'], 'observed': o}
 
 
